@@ -392,5 +392,5 @@ def run_scenario(scn, *, bus="sync", chooser=None, seed=0, max_steps=None, use_s
         return True
 
     with instrument_tickers(ctx):
-        res, loop = run_virtual(main, max_steps=max_steps or scn.get("max_steps", 20000))
+        res, loop = run_virtual(main, max_steps=max_steps or scn.get("max_steps", 20000), step_cost_ns=scn.get("step_cost_ns", 0))
     return {"trace": trace, "result": res, "steps": loop.step, "info": info, "ctx": ctx}
